@@ -5,7 +5,8 @@ From Coq Require Import List Arith ZArith Reals Lra Lia Bool.
 From TLV Require Import Base.Shape Base.PyList Base.Tensor Base.BigSum Base.Ops Model.Transforms
   Proofs.TransformsProofs Proofs.TransformsProofsR Proofs.TransformsProofsTT Proofs.TransformsProofsTucker
   Proofs.TransformsProofsPf2 Proofs.TransformsProofsR2 Proofs.TransformsProofsFlip Proofs.TransformsProofsApi Proofs.TransformsProofsPermList
-  Proofs.TransformsProofsTTM Proofs.TransformsProofsOrtho Proofs.TransformsProofsNegMode Proofs.TransformsProofsNegMode2 Proofs.TransformsProofsAlign.
+  Proofs.TransformsProofsTTM Proofs.TransformsProofsOrtho Proofs.TransformsProofsNegMode Proofs.TransformsProofsNegMode2 Proofs.TransformsProofsAlign Proofs.TransformsProofsLink.
+From TLV Require Model.Factorized Proofs.FactorizedProofs Proofs.FactorizedProofs3 Proofs.FactorizedProofs5 Proofs.FactorizedProofs9.
 Import ListNotations.
 
 (* --- cp_permute_factors: any column permutation applied to all factors and the weights *)
@@ -76,6 +77,7 @@ Theorem C04_cp_mode_dot_matrix : forall (F : Type) (Op : fops F),
   forall (w : list F) (fs : list (mat F)) (M : mat F) (k : nat) (kd : bool) w' fs' (idx : list nat) (j : nat),
   cp_mode_dot Op w fs (OpMat M) k kd = Ok (w', fs') ->
   length idx = length fs -> j < length M -> length w <= ncols (nth k fs []) ->
+  cp_shape fs' = set_nth k (length M) (cp_shape fs) /\
   cp_entry Op w' fs' (set_nth k j idx) =
   sumn Op (length (nth k fs [])) (fun i => fmul Op (mget Op M j i) (cp_entry Op w fs (set_nth k i idx))).
 Proof. exact @cp_mode_dot_matrix. Qed.
@@ -103,27 +105,54 @@ Theorem C04_cp_mode_dot_vector_contract : forall (F : Type) (Op : fops F),
 Proof. exact @cp_mode_dot_vector_contract. Qed.
 Print Assumptions C04_cp_mode_dot_vector_contract.
 
-(* --- input forms (CPTensor object / plain (weights, factors) tuple, weights None, copy on / off), repaired tree (/repo 98aff0c, 85a028b):
-   every form of the operand is the core function on the given weights, ones standing for None; hence all the theorems above
-   (entry preservation, canonical form, mode products) hold for every form, with w := weights_or_ones w fs *)
-Theorem C04_cp_mode_dot_api : forall (F : Type) (Op : fops F) (is_class copy : bool) (w : option (list F)) (fs : list (mat F))
-  (x : operand) (mode : nat) (kd : bool),
-  cp_mode_dot_api Op is_class copy w fs x mode kd = cp_mode_dot Op (weights_or_ones Op w fs) fs x mode kd.
-Proof. exact @cp_mode_dot_api_all. Qed.
+(* --- input forms: cp_operand = CpObject (CPTensor object: cached shape, weights never None) | CpTuple (plain (weights, factors),
+   weights possibly None); repaired tree (/repo 98aff0c, 85a028b).  Whatever the form and the copy flag, an accepted call returns an
+   object that holds the answer of the core function on the operand's weights (ones for None) and factors -- so the theorems above
+   apply -- and whose cached `shape` is the shape of what it holds (copy=False on an object recomputes it, every other route goes
+   through the validating constructor) *)
+Theorem C04_cp_mode_dot_api : forall (F : Type) (Op : fops F) (x : cp_operand) (copy : bool) (opd : operand) (mode : nat) (kd : bool) o',
+  cp_mode_dot_api Op x copy opd mode kd = Ok o' ->
+  operand_okb x = true /\
+  cp_mode_dot Op (operand_w Op x) (operand_fs x) opd mode kd = Ok (cpo_w o', cpo_fs o') /\
+  cpo_shape o' = cp_shape (cpo_fs o').
+Proof. exact @cp_mode_dot_api_spec. Qed.
 Print Assumptions C04_cp_mode_dot_api.
 
-Theorem C04_cp_flip_sign_api : forall (F : Type) (Op : fops F) (is_class : bool) (summ : list F -> F) (w : option (list F))
-  (fs : list (mat F)) (mode : nat),
-  cp_flip_sign_api Op is_class summ w fs mode = cp_flip_sign Op summ (weights_or_ones Op w fs) fs mode.
-Proof. exact @cp_flip_sign_api_all. Qed.
+Theorem C04_cp_flip_sign_api : forall (F : Type) (Op : fops F) (x : cp_operand) (summ : list F -> F) (mode : nat) o',
+  cp_flip_sign_api Op x summ mode = Ok o' ->
+  operand_okb x = true /\
+  cp_flip_sign Op summ (operand_w Op x) (operand_fs x) mode = Ok (cpo_w o', cpo_fs o') /\
+  cpo_shape o' = cp_shape (cpo_fs o').
+Proof. exact @cp_flip_sign_api_spec. Qed.
 Print Assumptions C04_cp_flip_sign_api.
 
+(* the object built from (w, fs) by the constructor and the tuple (w, fs) itself give the same result object, whatever the copy flags *)
+Theorem C04_cp_mode_dot_api_forms_agree : forall (F : Type) (Op : fops F) (w : option (list F)) (fs : list (mat F)) o (c1 c2 : bool)
+  (opd : operand) (mode : nat) (kd : bool) o1 o2,
+  cp_new Op w fs = Ok o ->
+  cp_mode_dot_api Op (CpTuple w fs) c1 opd mode kd = Ok o1 ->
+  cp_mode_dot_api Op (CpObject o) c2 opd mode kd = Ok o2 -> o1 = o2.
+Proof. exact @cp_mode_dot_api_forms_agree. Qed.
+Print Assumptions C04_cp_mode_dot_api_forms_agree.
+
+Theorem C04_cp_flip_sign_api_forms_agree : forall (F : Type) (Op : fops F) (w : option (list F)) (fs : list (mat F)) o
+  (summ : list F -> F) (mode : nat) o1 o2,
+  cp_new Op w fs = Ok o ->
+  cp_flip_sign_api Op (CpTuple w fs) summ mode = Ok o1 ->
+  cp_flip_sign_api Op (CpObject o) summ mode = Ok o2 -> o1 = o2.
+Proof. exact @cp_flip_sign_api_forms_agree. Qed.
+Print Assumptions C04_cp_flip_sign_api_forms_agree.
+
 Example C04_nonvacuous_forms :
-  cp_mode_dot_api Zops false false None [[[1; 2]; [3; 4]]; [[5; 6]]]%Z (OpMat [[1; 1]]%Z) 0 false
-    = Ok ([1; 1]%Z, [[[4; 6]]; [[5; 6]]]%Z) /\
-  cp_flip_sign_api Zops false (col_sum Zops) None [[[1; -2]; [3; -4]]; [[-5; 6]]]%Z 0
-    = Ok ([1; 1]%Z, [[[-1; -2]; [-3; -4]]; [[5; 6]]]%Z).
-Proof. split; vm_compute; reflexivity. Qed.
+  let fs := [[[1; 2]; [3; 4]]; [[5; 6]]]%Z in
+  cp_new Zops None fs = Ok (mk_cpobj [2; 1] [1; 1]%Z fs) /\
+  cp_mode_dot_api Zops (CpTuple None fs) false (OpMat [[1; 1]]%Z) 0 false = Ok (mk_cpobj [1; 1] [1; 1]%Z [[[4; 6]]; [[5; 6]]]%Z) /\
+  cp_mode_dot_api Zops (CpObject (mk_cpobj [2; 1] [1; 1]%Z fs)) false (OpVec [1; 1]%Z) 0 false
+    = Ok (mk_cpobj [1] [1; 1]%Z [[[20; 36]]]%Z) /\
+  cp_mode_dot_api Zops (CpTuple (Some [1]%Z) fs) true (OpMat [[1; 1]]%Z) 0 false = Err /\
+  cp_flip_sign_api Zops (CpTuple None [[[1; -2]; [3; -4]]; [[-5; 6]]]%Z) (col_sum Zops) 0
+    = Ok (mk_cpobj [2; 1] [1; 1]%Z [[[-1; -2]; [-3; -4]]; [[5; 6]]]%Z).
+Proof. cbv zeta. repeat split; vm_compute; reflexivity. Qed.
 
 (* --- cp_normalize over R; the square roots are data with the contract norms_ok *)
 Theorem C04_cp_normalize_entry : forall (tape : list (list R)) (w : list R) (fs : list (mat R)) w' fs' (idx : list nat),
@@ -201,6 +230,7 @@ Theorem C04_tucker_mode_dot_matrix : forall (F : Type) (Op : fops F), ring_theor
   forall (core : tensor F) (fs : list (mat F)) (M : mat F) (k : nat) (kd : bool) core' fs' (idx : list nat) (j : nat),
   tucker_mode_dot Op core fs (OpMat M) k kd = Ok (core', fs') ->
   length idx = length fs -> j < length M ->
+  cp_shape fs' = set_nth k (length M) (cp_shape fs) /\
   tucker_entry Op core' fs' (set_nth k j idx) =
   sumn Op (length (nth k fs [])) (fun i => fmul Op (mget Op M j i) (tucker_entry Op core fs (set_nth k i idx))).
 Proof. exact @tucker_mode_dot_matrix. Qed.
@@ -450,6 +480,65 @@ Theorem C04_cp_flip_sign_z_entry_R : forall (summ : list R -> R) (w : list R) (f
 Proof. exact (fun summ => cp_flip_sign_z_entry Rops Rops_ring summ colsign_sq_R colsign_abs_R). Qed.
 Print Assumptions C04_cp_flip_sign_z_entry_R.
 
+(* ================================================================== link to the code-level reconstructions (property C03)
+   cp_entry / tucker_entry / tt_entry / tr_entry / ttm_entry are this development's entry-level definitions of the represented
+   tensor.  Model/Factorized.v models tensorly's cp_to_tensor, tucker_to_tensor, tt_to_tensor, tr_to_tensor, tt_matrix_to_tensor
+   step by step (validation, khatri_rao + dot + fold, mode-product chain, reshape / dot chains); on every input those models accept
+   they return a tensor with the shape of, and exactly the entries of, the definitions used above.  of_rows / of_vec encode a list
+   of rows / a list as the dense tensors Factorized works on. *)
+Theorem C04_link_cp_to_tensor : forall (F : Type) (Op : fops F), ring_theory (f0 Op) (f1 Op) (fadd Op) (fmul Op) (fsub Op) (fopp Op) (@eq F) ->
+  forall (w : list F) (fs : list (mat F)), fs <> [] ->
+  exists t, Factorized.cp_to_tensor Op (Some (of_vec Op w)) (map (of_rows Op (length w)) fs) None = Ok t /\
+    shape t = shape (Transforms.cp_to_tensor Op w fs) /\
+    forall idx, inb (shape t) idx -> get (f0 Op) t idx = cp_entry Op w fs idx.
+Proof. exact @cp_to_tensor_link. Qed.
+Print Assumptions C04_link_cp_to_tensor.
+
+Theorem C04_link_tucker_to_tensor : forall (F : Type) (Op : fops F), ring_theory (f0 Op) (f1 Op) (fadd Op) (fmul Op) (fsub Op) (fopp Op) (@eq F) ->
+  forall (core : tensor F) (fs : list (mat F)),
+  length fs = length (shape core) -> wf core -> 0 < prod (shape core) -> 0 < prod (cp_shape fs) ->
+  exists t, Factorized.tucker_to_tensor Op core (of_rows_list Op (shape core) fs) None false = Ok t /\
+    shape t = shape (Transforms.tucker_to_tensor Op core fs) /\
+    forall idx, inb (shape t) idx -> get (f0 Op) t idx = tucker_entry Op core fs idx.
+Proof. exact @tucker_to_tensor_link. Qed.
+Print Assumptions C04_link_tucker_to_tensor.
+
+Theorem C04_link_tt_to_tensor : forall (F : Type) (Op : fops F), ring_theory (f0 Op) (f1 Op) (fadd Op) (fmul Op) (fsub Op) (fopp Op) (@eq F) ->
+  forall (cs : list (tensor F)) (ns : list nat), cs <> [] -> FactorizedProofs3.tt_cores F 1 cs ns 1 -> 0 < prod ns ->
+  exists t, Factorized.tt_to_tensor Op cs = Ok t /\ shape t = shape (Transforms.tt_to_tensor Op cs) /\
+    forall idx, inb (shape t) idx -> get (f0 Op) t idx = tt_entry Op cs idx.
+Proof. exact @tt_to_tensor_link. Qed.
+Print Assumptions C04_link_tt_to_tensor.
+
+Theorem C04_link_tr_to_tensor : forall (F : Type) (Op : fops F), ring_theory (f0 Op) (f1 Op) (fadd Op) (fmul Op) (fsub Op) (fopp Op) (@eq F) ->
+  forall (fa : tensor F) (mid : list (tensor F)) (fl : tensor F) (n0 : nat) (nsm : list nat) (nL r0 rL : nat),
+  FactorizedProofs3.tt_cores F r0 (fa :: mid) (n0 :: nsm) rL -> shape fl = [rL; nL; r0] -> 0 < r0 -> 0 < prod ((n0 :: nsm) ++ [nL]) ->
+  exists t, Factorized.tr_to_tensor Op (fa :: mid ++ [fl]) = Ok t /\
+    shape t = shape (Transforms.tr_to_tensor Op (fa :: mid ++ [fl])) /\
+    forall idx, inb (shape t) idx -> get (f0 Op) t idx = tr_entry Op (fa :: mid ++ [fl]) idx.
+Proof. exact @tr_to_tensor_link. Qed.
+Print Assumptions C04_link_tr_to_tensor.
+
+Theorem C04_link_ttm_to_tensor : forall (F : Type) (Op : fops F), ring_theory (f0 Op) (f1 Op) (fadd Op) (fmul Op) (fsub Op) (fopp Op) (@eq F) ->
+  forall (cs : list (tensor F)) (ns ms : list nat), cs <> [] -> FactorizedProofs9.ttm_cores F 1 cs ns ms 1 ->
+  exists t, Factorized.ttm_to_tensor Op cs = Ok t /\ shape t = shape (Transforms.ttm_to_tensor Op cs) /\
+    forall is os, inb ns is -> inb ms os -> get (f0 Op) t (is ++ os) = ttm_entry Op cs (is ++ os).
+Proof. exact @ttm_to_tensor_link. Qed.
+Print Assumptions C04_link_ttm_to_tensor.
+
+Example C04_link_nonvacuous :
+  FactorizedProofs3.tt_cores Z 1 [mk [1; 2; 2] [1; 2; 3; 4]%Z; mk [2; 2; 1] [5; 6; 7; 8]%Z] [2; 2] 1 /\
+  Factorized.tt_to_tensor Zops [mk [1; 2; 2] [1; 2; 3; 4]%Z; mk [2; 2; 1] [5; 6; 7; 8]%Z]
+    = Ok (Transforms.tt_to_tensor Zops [mk [1; 2; 2] [1; 2; 3; 4]%Z; mk [2; 2; 1] [5; 6; 7; 8]%Z]) /\
+  Factorized.cp_to_tensor Zops (Some (of_vec Zops [2; -1]%Z)) (map (of_rows Zops 2) [[[1; 2]; [3; 4]]; [[5; 6]]]%Z) None
+    = Ok (Transforms.cp_to_tensor Zops [2; -1]%Z [[[1; 2]; [3; 4]]; [[5; 6]]]%Z) /\
+  Factorized.tucker_to_tensor Zops (mk [2; 1] [1; 2]%Z) (of_rows_list Zops [2; 1] [[[1; 0]; [1; 1]]; [[2]; [3]]]%Z) None false
+    = Ok (Transforms.tucker_to_tensor Zops (mk [2; 1] [1; 2]%Z) [[[1; 0]; [1; 1]]; [[2]; [3]]]%Z).
+Proof.
+  split; [|repeat split; vm_compute; reflexivity].
+  econstructor; [reflexivity | lia |]. econstructor; [reflexivity | lia | constructor].
+Qed.
+
 (* --- non-vacuity: the hypotheses are satisfiable and the model computes *)
 Example C04_nonvacuous_ring :
   cp_permute Zops [1; 0] [2; 3]%Z [[[1; 2]; [3; 4]]; [[5; 6]; [7; 8]]]%Z
@@ -527,3 +616,25 @@ Example C04_nonvacuous_round3 :
   orthob Zops Z.eqb 2 [[0; 1]; [-1; 0]; [0; 0]]%Z = true /\
   ttm_entry Zops [mk [1; 1; 2; 2] [1; 2; 3; 4]%Z; mk [2; 1; 1; 1] [5; 6]%Z] [0; 0; 1; 0] = 39%Z.
 Proof. repeat split; vm_compute; reflexivity. Qed.
+
+(* the hypotheses of C04_svd_compress_decompress_roundtrip hold jointly (3x2 slice of rank 2, threshold 0, every value kept; the PARAFAC2
+   tensor P = I, B = I, A = [[1, 1]], C = score^T, w = [1, 1] represents the score matrix exactly) and so does its conclusion *)
+Example C04_roundtrip_nonvacuous :
+  let X := [[2; 0]; [0; 1]; [0; 0]]%Z in let U := [[1; 0]; [0; 1]; [0; 0]]%Z in let s := [2; 1]%Z in let Vh := [[1; 0]; [0; 1]]%Z in
+  let score := [[2; 0]; [0; 1]]%Z in let P := [[1; 0]; [0; 1]]%Z in let C := [[2; 0]; [0; 1]]%Z in
+  compress_slice Zops 2 0%Z X (U, s, Vh) = (score, Some U) /\
+  count_kept Zops 0%Z s = length s /\ length Vh = length s /\ rectb (length s) U = true /\
+  svd_decompress Zops [1; 1]%Z [[1; 1]]%Z P C [P] [Some U] = Ok ([1; 1]%Z, [[[1; 1]]; P; C]%Z, [U]) /\
+  0 < length [P] /\ nth 0 [Some U] None = Some U /\ length (nth 0 [P] []) = length score /\ length P <= ncols (nth 0 [P] []) /\
+  forall j k, j < length U -> k < ncols score ->
+    mget Zops X j k = sumn Zops (length s) (fun t => (mget Zops U j t * (vget Zops s t * mget Zops Vh t k))%Z) /\
+    (forall t, t < length score -> pf2_entry Zops [1; 1]%Z [[1; 1]]%Z P C [P] 0 t k = mget Zops score t k) /\
+    pf2_entry Zops [1; 1]%Z [[1; 1]]%Z P C [U] 0 j k = mget Zops X j k.
+Proof.
+  cbv zeta. repeat (split; [vm_compute; first [reflexivity | lia] |]).
+  intros j k Hj Hk. cbn in Hj, Hk.
+  assert (Ht : forall t, t < 2 -> t = 0 \/ t = 1) by (intros; lia).
+  destruct j as [|[|[|j]]]; [| | |lia]; (destruct k as [|[|k]]; [| |lia]);
+    (split; [vm_compute; reflexivity | split; [|vm_compute; reflexivity]]);
+    intros t Hlt; cbn in Hlt; destruct (Ht t Hlt) as [-> | ->]; vm_compute; reflexivity.
+Qed.
